@@ -177,10 +177,30 @@ def coll_unit():
         Inst(f'{C}.filter_contained_by', 'filterContainedBy', [('self', 'GV.Coll'), ('shape', 'Query')], 'Except GV.Coll'),
         Inst(f'{C}.filter_contains', 'filterContains', [('self', 'GV.Coll'), ('shape', 'Query')], 'Except GV.Coll'),
         Inst(f'{C}.intersects', 'intersects', [('self', 'GV.Coll'), ('shape', 'Query')], 'Except Bool'),
+        Inst(f'{C}.__bool__', 'bool', [('self', 'GV.Coll')], 'Bool'),
+        Inst('FeatureCollection.__add__', 'fcAddFc', [('self', 'GV.Coll'), ('other', 'FCA')], 'Except GV.Coll'),
+        Inst('FeatureCollection.__add__', 'fcAddTrack', [('self', 'GV.Coll'), ('other', 'TrackA')], 'Except GV.Coll'),
+        Inst('Track.__add__', 'trackAddTrack', [('self', 'GV.Coll'), ('other', 'TrackA')], 'Except GV.Coll'),
+        Inst('Track.__add__', 'trackAddFc', [('self', 'GV.Coll'), ('other', 'FCA')], 'Except GV.Coll'),
     ]
+    py2lean.LEAN_TYPE.setdefault('FCA', 'GV.Coll')
+    py2lean.LEAN_TYPE.setdefault('TrackA', 'GV.Coll')
 
     def isinstance_hook(typ):
-        return {'Dt': {'datetime'}, 'TI': {'TimeInterval'}, 'GV.Coll': {'CollectionBase'}, 'Query': {'BaseShape'}}.get(typ)
+        return {'Dt': {'datetime'}, 'TI': {'TimeInterval'}, 'GV.Coll': {'CollectionBase'}, 'Query': {'BaseShape'},
+                'FCA': {'CollectionBase', 'FeatureCollection'}, 'TrackA': {'CollectionBase', 'Track'}}.get(typ)
+
+    def fc_ctor(tr, args):
+        if len(args) != 1 or args[0].typ != 'List GV.Coll.Shape':
+            raise Unsupported(f'FeatureCollection({", ".join(a.typ for a in args)})')
+        return Val(f'(GV.Coll.mkFC {args[0].text})', 'GV.Coll')
+
+    def track_ctor(tr, args):
+        if len(args) != 1 or args[0].typ != 'List GV.Coll.Shape':
+            raise Unsupported(f'Track({", ".join(a.typ for a in args)})')
+        v = Val(f'(GV.Coll.mkTrack {args[0].text})', 'GV.Coll')
+        v.raises = True
+        return v
 
     def type_ctor(tr, recv, args):
         if recv.typ != 'GV.Coll' or len(args) != 1 or args[0].typ != 'List GV.Coll.Shape':
@@ -205,8 +225,10 @@ def coll_unit():
                 pins={k: PINS[k] for k in ('utils/functions.py::default_to_zulu', 'collections.py::Track.__init__',
                                            'collections.py::CollectionBase.__init__')},
                 attr_types={('GV.Coll', 'geoshapes'): ('{}.shapes', 'List GV.Coll.Shape'),
+                            ('FCA', 'geoshapes'): ('{}.shapes', 'List GV.Coll.Shape'),
+                            ('TrackA', 'geoshapes'): ('{}.shapes', 'List GV.Coll.Shape'),
                             ('GV.Coll.Shape', 'dt'): ('{}.dt', 'Opt TI'), ('Query', 'dt'): ('qdt', 'Opt TI')},
-                intrinsics={'default_to_zulu': zulu},
+                intrinsics={'default_to_zulu': zulu, 'FeatureCollection': fc_ctor, 'Track': track_ctor},
                 hooks={'isinstance': isinstance_hook, 'type_ctor': type_ctor, 'always_truthy': ('TI', 'Dt')},
                 ctx_params=[('qdt', 'Option GV.TI'), ('xi', 'GV.Coll.Shape → Bool'), ('xc', 'GV.Coll.Shape → Bool'),
                             ('qc', 'GV.Coll.Shape → Bool')],
